@@ -8,7 +8,10 @@ from .classify import attach_labels
 from .universe import kind_of
 
 NAMES = ["a", "b", "c"]
-RARE_NAMES = ["d", "x y", "ä", "A", " ", "\t", " a", "a/b"]
+RARE_NAMES = ["d", "x y", "ä", "A", " ", "\t", " a", "a/b",
+              # the same letter in decomposed form: another name (names are compared code point
+              # by code point everywhere)
+              "a\u0308"]
 TYPES = ["t1", "t2", "n.s.", "T1/sub"]
 TEXTS = [None, "some text", "Some  Text", "other"]
 
@@ -156,6 +159,11 @@ class Gen(object):
                 # a name that is the id of an existing object: the "cleared name falls back to
                 # the id" rule can then run into a sibling that already carries that name
                 return self.pick(self.U.objs).id
+            twins = {"\u00e4": "a\u0308", "a\u0308": "\u00e4", "a": "A", "A": "a"}
+            near = [twins[o.name] for o in self.nodes() if isinstance(o.name, str) and o.name in twins]
+            if near and self.chance(0.4):
+                # state-directed: the look-alike of a name that is in use (other code points, other case)
+                return self.pick(near)
             return self.pick(RARE_NAMES + [GOOD_OID])
         return self.pick(self.p.names)
 
